@@ -356,3 +356,23 @@ def _long_pairs(case):
         info.classes.append("len_ge_32")
     info.nontrivial = True
     return info
+
+
+@st.composite
+def _eos_wide_case(draw, tier):
+    return {
+        "b": draw(G.eos_padded_wide_batch(tier)),
+        "costs": draw(G.dyadic_costs(force_ties=True)),
+        "include_eos": draw(st.booleans()), "norm": draw(st.booleans()), "batch_first": draw(st.booleans()),
+        "exclude_last": draw(st.booleans()), "padding": -1, "entry": "function", "layout": "contiguous",
+        "which": draw(st.sampled_from(["er", "prefix"])),
+    }
+
+
+@subcheck("C02", "eos_padded_wide", lambda tier: _eos_wide_case(tier), 60, 1500,
+          doc="transcripts of <= 6 tokens in tensors 257..530 (thorough ..2049) wide, padded with copies of eos: same bounds oracle")
+def _eos_padded_wide(case):
+    info = _er_bounds(case) if case["which"] == "er" else _prefix_er_bounds(case)
+    info.nontrivial = True
+    info.classes.append("width_ge_257")
+    return info
